@@ -216,6 +216,9 @@ func TestSim(t *testing.T) {
 			if tier == "thorough" {
 				budget = 4000
 			}
+			if b := envInt("VERIF_SHRINK_BUDGET", 0); b > 0 {
+				budget = int(b)
+			}
 			min := Shrink(orig, res.Blocks, still, budget)
 			final := execute(t, check, tier, NewReplayTape(min), true)
 			selectPrimary(known, final)
